@@ -46,7 +46,7 @@ ASSUMPTIONS = [
     "opens are observed through CPython's 'open' audit event",
 ]
 REQUIRED = ["histories", "operations", "open_log_checks", "index_ops", "negative_index_ops",
-            "slice_ops", "iterate_ops", "out_of_range_ops", "chain_elements_checked",
+            "slice_ops", "iterate_ops", "filter_ops", "out_of_range_ops", "chain_elements_checked",
             "chain_negative_indices", "chain_empty_members", "populations_rows_checked",
             "to_population_checked", "map_checked", "map_verbose_checked", "large_populations",
             "transform_checked", "tap_load",
@@ -239,6 +239,25 @@ def check_history(ctx, case, tmp):
                 else:
                     return ctx.violation("out-of-range-accepted", f"{ops[-1]} returned {t.source}",
                                          case)
+            elif u < 0.95 and n:
+                # an index-indirected view (filter): loads every tree once for the predicate, the
+                # view then indexes the same cached trees
+                from swcgeom.core.population import filter_population
+
+                thr = int(rng.integers(2, 2 + n + 1))
+                ops.append(f"filter(nodes < {thr})")
+                ctx.count("filter_ops")
+                sub = filter_population(pop, lambda t: t.number_of_nodes() < thr)
+                requested.update(listing)
+                want = [r for r in listing if files[r][0] < thr]
+                if len(sub) != len(want):
+                    return ctx.violation("filter-length", f"{ops[-1]} has {len(sub)} trees, "
+                                                          f"{len(want)} files qualify", case)
+                for j, r in enumerate(want):
+                    t = sub[j]
+                    if not _is_tree_of(t, root, r, files) or t is not pop[listing.index(r)]:
+                        return ctx.violation("wrong-tree", f"{ops[-1]}[{j}] is {t.source}, expected "
+                                                           f"the cached tree of {r}", case)
             else:
                 ops.append("len")
                 if len(pop) != n:
